@@ -429,7 +429,7 @@ M('c04-size-basis', 'C04', SUBC, "                size - 1,\n                bas
 # states (a memo, an argument copy, a validation order, a declared flag); the folds show the stated behaviour unchanged on the whole
 # family, so silence is the right verdict.
 
-# reverts of the repairs F02/F03/F23/F30-F33 (each must be reported again)
+# reverts of the repairs F02/F03/F23/F30-F33, F35 (each must be reported again)
 M('c04-revert-f03', 'C04', SUBC, "                    circuit._remove_user(output, user)\n                    circuit._add_user(new_output, user)", "                    circuit._gate_to_users[new_output].append(user)", None)
 M('c04-revert-f02', 'C04', SUBC, "                outputs_negation_mapping[output] = found_patterns[MAX_PATTERN - pattern]", "                outputs_mapping[output] = found_patterns[MAX_PATTERN - pattern]", 'C04.FOLD')
 M('c04-revert-f23', 'C04', SUBC, "                    else input_labels_mapping[negation_gate]", "                    else output_labels_mapping[negation_gate]", 'C04.FOLD')
@@ -437,6 +437,7 @@ M('c04-revert-f30', 'C04', SUBC, "            is_output: bool = node in outputs_
 M('c04-revert-f31', 'C04', SUBC, "circuit.evaluate_full_circuit(assignment).items()", "circuit.evaluate_circuit(assignment).items()", 'C04.FOLD')
 M('c04-revert-f32', 'C04', SUBC, "            if i < len(labels_to_remove):\n                subcircuit.rename_gate(node.label, labels_to_remove[i])", "            subcircuit.rename_gate(node.label, labels_to_remove[i])", 'C04.FOLD')
 M('c04-revert-f33', 'C04', SUBC, "            node_states[gate] = _NodeState.REMOVED\n\n        circuit = new_circuit", "            pass\n\n        circuit = new_circuit", 'C04.FOLD')
+M('c04-revert-f35', 'C04', SUBC, "                    if user not in cut_nodes[cut] or user in inputs:", "                    if user not in cut_nodes[cut]:", 'C04.FOLD')
 M('c04-size-all-outputs', 'C04', SUBC, "            if subcircuit.outputs[i] in filtered_outputs\n        ]", "            if subcircuit.outputs[i] in subcircuit.outputs\n        ]", 'C04.')
 M('c04-twin-rename', 'C04', SUBC, "    initial_circuit: Circuit = copy.deepcopy(circuit)", "    initial_circuit = copy.deepcopy(circuit)", None)
 
